@@ -358,13 +358,17 @@ theorem mem_combinedDeps (imported localDeps : Option (List String)) (f : String
     f ∈ (combinedDeps imported localDeps).getD [] ↔ f ∈ imported.getD [] ∨ f ∈ localDeps.getD [] := by
   unfold combinedDeps
   split
-  · simp
   · rename_i h
-    simp only [Bool.or_eq_true, not_or, Bool.not_eq_true, Option.isSome_eq_false_iff,
-      Option.isNone_iff_eq_none] at h
-    obtain ⟨h1, h2⟩ := h
-    subst h1; subst h2
-    simp
+    rw [List.isEmpty_iff] at h
+    have h' := List.append_eq_nil_iff.1 h
+    simp [h'.1, h'.2]
+  · simp
+
+/-- an empty list of build-dep files is no list: `none` exactly when there is nothing to wait for -/
+theorem combinedDeps_isSome (imported localDeps : Option (List String)) :
+    (combinedDeps imported localDeps).isSome = !(imported.getD [] ++ localDeps.getD []).isEmpty := by
+  unfold combinedDeps
+  split <;> rename_i h <;> simp [h]
 
 /-- the order-only dependencies of a statement made by `buildFromRule` are exactly the given files -/
 theorem buildFromRule_deps (nr : NinjaRule) (inputs : Option (List String)) (outs : List String)
@@ -510,17 +514,14 @@ theorem moduleStmts_combined {ev st builder app r rules globals m bdeps srcdir f
       buildStep ev st builder app.name rules flat m srcdir (effSources r m) combined lt.2
         (registerLocalDeps m lt.1) = .ok ls' ∧
       downloadStep ev m srcdir rules flat ls = .ok lt ∧
-      (combined.isSome = ((effBuildDeps globals m bdeps).isSome || m.buildDepFiles.isSome)) ∧
+      (combined.isSome = !(combined.getD []).isEmpty) ∧
       ∀ f, f ∈ combined.getD [] ↔
         (∃ d ∈ (effBuildDeps globals m bdeps).getD [], f ∈ (ls.files.get? d).getD []) ∨
           f ∈ m.buildDepFiles.getD [] := by
   obtain ⟨lt, imported, hlt, himp, hbs⟩ := moduleStmts_steps h
   refine ⟨lt, combinedDeps imported m.buildDepFiles, hbs, hlt, ?_, ?_⟩
-  · rw [← importedOf_isSome himp]
-    unfold combinedDeps
-    split
-    · rename_i hc; rw [hc]; rfl
-    · rename_i hc; simp only [Bool.not_eq_true] at hc; rw [hc]; rfl
+  · unfold combinedDeps
+    split <;> rename_i hc <;> simp [hc]
   · intro f
     rw [mem_combinedDeps, importedOf_mem himp, (downloadStep_files hlt).1]
 
